@@ -173,6 +173,31 @@ Section Ops.
   Definition pos_iter (sh : shape) (data : list A) : list (nat * nat * A) :=
     pos_iter_from (S (sh_height sh * sh_width sh)) 0 sh data.
 
+  (* with_position() on an iterator that has already been advanced to index k (by next / nth): the
+     SurfacePosIter wraps the iterator as it is, so it goes on from index k *)
+  Definition pos_iter_after (sh : shape) (data : list A) (k : nat) : list (nat * nat * A) :=
+    pos_iter_from (S (sh_height sh * sh_width sh)) k sh data.
+
+  (* SurfaceMutIter at index i: the offset of the reference nth(0) hands out *)
+  Definition mut_at (sh : shape) (len i : nat) : option nat :=
+    match nth_pos sh i with
+    | Some (r, c) => if len <=? offset sh r c then None else Some (offset sh r c)
+    | None => None
+    end.
+
+  (* SurfaceMutIter::with_position from index `index` on: (position, offset of the reference) *)
+  Fixpoint mut_pos_from (fuel index : nat) (sh : shape) (len : nat) : list (nat * nat * nat) :=
+    match fuel with
+    | O => []
+    | S f =>
+        match mut_at sh len index with
+        | Some o => (iter_position sh index, o) :: mut_pos_from f (S index) sh len
+        | None => []
+        end
+    end.
+  Definition mut_pos_after (sh : shape) (len k : nat) : list (nat * nat * nat) :=
+    mut_pos_from (S (sh_height sh * sh_width sh)) k sh len.
+
   (* SurfaceMut::get_mut: same addressing as get *)
   Definition get_mut (sh : shape) (data : list A) (r c : nat) : option A := get sh data r c.
 
